@@ -71,6 +71,131 @@ def guided_path(rng, toks):
     return s
 
 
+# ------------------------------------------------------------------------------------------------
+# independent reference matcher (model-free): the documented semantics written directly in Python for
+# globs given as sequences of TOKENS (no parsing: each token has a fixed meaning; only runs of '*' are
+# re-tokenised as the grammar does: '**' first)
+
+TOKEN_AST = {"?": ("one",), "*": ("star",), "**": ("dstar",), "/": ("sep",), "[ab]": ("class", False, "ab"),
+             "[!a]": ("class", True, "a"), "{a,b/c}": ("alt", "once", [[("lit", "a")], [("lit", "b"), ("sep",), ("lit", "c")]]),
+             "@(a|b)": ("alt", "once", [[("lit", "a")], [("lit", "b")]]), "?(a)": ("alt", "opt", [[("lit", "a")]]),
+             "+(a)": ("alt", "plus", [[("lit", "a")]]), "*(a|b)": ("alt", "many", [[("lit", "a")], [("lit", "b")]]),
+             "\\*": ("lit", "*")}
+
+
+def ref_ast(toks):
+    """None if some token has no fixed meaning here"""
+    out, i = [], 0
+    while i < len(toks):
+        t = toks[i]
+        if t in ("*", "**"):
+            n = 0
+            while i < len(toks) and toks[i] in ("*", "**"):
+                n += len(toks[i])
+                i += 1
+            if i < len(toks) and (toks[i].startswith("(") or toks[i].startswith("*(")):
+                return None          # "*" + "*(a|b)" is "**" + "(a|b)": no fixed token meaning
+            out += [("dstar",)] * (n // 2) + [("star",)] * (n % 2)
+            continue
+        if t in TOKEN_AST:
+            out.append(TOKEN_AST[t])
+        elif len(t) == 1 and t not in "\\{[":
+            if t == "(" and i > 0 and toks[i - 1] in ("?", "+", "@", "!"):
+                return None
+            out.append(("lit", t))
+        else:
+            return None
+        i += 1
+    return out
+
+
+def _ceq(ci, a, b):
+    return a == b or (ci and a.lower() == b.lower())
+
+
+def _seq_ends(seq, s, starts, ci):
+    cur = set(starts)
+    for node in seq:
+        nxt = set()
+        k = node[0]
+        for p in cur:
+            if k == "lit":
+                if p < len(s) and _ceq(ci, node[1], s[p]):
+                    nxt.add(p + 1)
+            elif k == "one":
+                if p < len(s) and s[p] != "/":
+                    nxt.add(p + 1)
+            elif k == "sep":
+                if p < len(s) and s[p] == "/":
+                    nxt.add(p + 1)
+            elif k == "star":
+                q = p
+                nxt.add(q)
+                while q < len(s) and s[q] != "/":
+                    q += 1
+                    nxt.add(q)
+            elif k == "dstar":
+                nxt.update(range(p, len(s) + 1))
+            elif k == "class":
+                if p < len(s) and (any(_ceq(ci, x, s[p]) for x in node[2]) != node[1]):
+                    nxt.add(p + 1)
+            else:
+                kind, alts = node[1], node[2]
+                once = set()
+                for a in alts:
+                    once |= _seq_ends(a, s, [p], ci)
+                if kind == "once":
+                    nxt |= once
+                elif kind == "opt":
+                    nxt |= once | {p}
+                else:
+                    reach, frontier = set(once), set(once)
+                    while frontier:
+                        new = set()
+                        for a in alts:
+                            new |= _seq_ends(a, s, frontier, ci)
+                        frontier = new - reach
+                        reach |= new
+                    nxt |= reach | ({p} if kind == "many" else set())
+        cur = nxt
+        if not cur:
+            break
+    return cur
+
+
+def ref_match(ast, s, ci):
+    return len(s) in _seq_ends(ast, s, [0], ci)
+
+
+def _sel_subject(glob_abs, path):
+    """string the include pattern of PathSelector(BASE) is matched against for `path`, relative to the pattern's anchor;
+    None = not predicted, False = cannot match"""
+    comps = path.split("/")
+    if any(c in (".", "..") for c in comps) or "//" in path or path.endswith("/") or path == "":
+        return None
+    full = path if path.startswith("/") else BASE + "/" + path
+    if glob_abs:
+        return full
+    if full.startswith(BASE + "/"):
+        return full[len(BASE) + 1:]
+    return False
+
+
+def _ref_job(job):
+    mode, toks, ci, paths = job
+    ast = ref_ast(toks)
+    if ast is None:
+        return None
+    if mode == "D":
+        return "".join("1" if ref_match(ast, p, ci) else "0" for p in paths)
+    glob = "".join(toks)
+    out = []
+    for p in paths:
+        subj = _sel_subject(glob.startswith("/") or glob.startswith("**"), p)
+        out.append("-" if subj is None else ("0" if subj is False else ("1" if ref_match(ast, subj, ci) else "0")))
+    return "".join(out)
+
+
 class Case:
     __slots__ = ("mode", "ci", "toks", "glob", "paths", "line")
 
@@ -133,7 +258,12 @@ def gen_cases(ctx):
             ps += ["/" + p for p in ps[:3]]
         return ps
 
-    def add(toks, paths, glob=None):
+    def add(toks, paths, glob=None, half=False):
+        if half:        # one Pattern-level and one selector-level case, --ignore-case on exactly one of them
+            ci = rng.below(2)
+            cases.append(Case("D", ci, toks, paths, glob))
+            cases.append(Case("S", 1 - ci, toks, sel_paths(rng, paths), glob))
+            return
         for ci in (0, 1):
             cases.append(Case("D", ci, toks, paths, glob))
             cases.append(Case("S", ci, toks, sel_paths(rng, paths), glob))
@@ -172,13 +302,13 @@ def gen_cases(ctx):
             for b in TOKENS:
                 for c in TOKENS:
                     for d in TOKENS:
-                        add([a, b, c, d], sample_paths([a, b, c, d], 3, 5))
-        ctx.bump("glob_tokens", 4, 160000 * 4)
-        n5 = 150000
+                        add([a, b, c, d], sample_paths([a, b, c, d], 3, 5), half=True)
+        ctx.bump("glob_tokens", 4, 160000 * 2)
+        n5 = 100000
         for _ in range(n5):
             toks = [rng.choice(TOKENS) for _ in range(5)]
-            add(toks, sample_paths(toks, 3, 5))
-        ctx.bump("glob_tokens", 5, n5 * 4)
+            add(toks, sample_paths(toks, 3, 5), half=True)
+        ctx.bump("glob_tokens", 5, n5 * 2)
     # random globs over the wider alphabet (incl. syntax outside the theorem fragment), 1-7 tokens
     nr = ctx.pick(6000, 120000)
     for _ in range(nr):
@@ -224,9 +354,25 @@ def ci_cases():
     return lines
 
 
+def _balanced(binary, lines):
+    """run_lines_parallel splits into contiguous chunks; the heavy lines (few tokens x all paths) come first, so
+    deal the lines round-robin over the shards and restore the order afterwards"""
+    n = core.NCPU
+    if len(lines) < 4 * n:
+        return core.run_lines(binary, lines)
+    order = [i for k in range(n) for i in range(k, len(lines), n)]
+    out = core.run_lines_parallel(binary, [lines[i] for i in order])
+    if len(out) != len(lines):
+        raise RuntimeError("%s: %d output lines for %d input lines" % (binary, len(out), len(lines)))
+    res = [None] * len(lines)
+    for i, o in zip(order, out):
+        res[i] = o
+    return res
+
+
 def run_both(lines, model):
-    impl = core.run_lines_parallel(GLOB, lines)
-    mod = core.run_lines_parallel(model, lines)
+    impl = _balanced(GLOB, lines)
+    mod = _balanced(model, lines)
     if len(impl) != len(lines) or len(mod) != len(lines):
         raise RuntimeError("line count mismatch: %d cases, %d impl, %d model" % (len(lines), len(impl), len(mod)))
     return impl, mod
@@ -245,7 +391,7 @@ def describe_diff(case, il, ml):
 
 
 def replay_payload(case, il, ml, extra=None):
-    d = {"mode": case.mode, "ignore_case": bool(case.ci), "glob": case.glob, "base_dir": BASE if case.mode == "S" else None,
+    d = {"mode": case.mode, "ignore_case": bool(case.ci), "glob": case.glob, "tokens": case.toks, "base_dir": BASE if case.mode == "S" else None,
          "paths": case.paths, "case_line": case.line, "impl": il, "model": ml,
          "replay_cmd": "echo '%s' | %s   # and | %s for the model" % (case.line, GLOB, os.path.join(core.CACHE, "model_P"))}
     if extra:
@@ -257,7 +403,7 @@ def run(ctx):
     ctx.rule = ("bounded-exhaustive globs over 20 tokens {a B . - + ( ż 1 ? * ** / [ab] [!a] {a,b/c} @(a|b) ?(a) +(a) *(a|b) \\*}: "
                 "all globs of <= 2 tokens x all paths of <= 3 (quick) / <= 4 (thorough) components over names {a B b a.1 a-1 ż ( ab} "
                 "(relative and absolute) + names with newlines; all 3-token globs and (quick: a 9000 sample containing every adjacent "
-                "token pair at every position; thorough: all) 4-token globs (+150k 5-token globs thorough) x sampled fixed paths and "
+                "token pair at every position; thorough: all) 4-token globs (+100k 5-token globs thorough) x sampled fixed paths and "
                 "paths derived from the glob so that many match; random globs of 1-7 tokens over a wider alphabet incl. $ ^ | , } ] "
                 "class syntax outside the fragment; every glob with and without --ignore-case, directly (Pattern) and through "
                 "PathSelector include/exclude/name with base dir /d-1/x.y/ż and relative + absolute paths. One evaluation = one "
@@ -285,13 +431,25 @@ def run(ctx):
             f = l.split(" ")
             if f[0] in ("D", "S"):
                 k = 3 if f[0] == "D" else 4
-                case = Case(f[0], int(f[1]), [], [dec(x) for x in f[k:]], glob=dec(f[k - 1]))
+                toks = rp.get("tokens") or []
+                case = Case(f[0], int(f[1]), toks, [dec(x) for x in f[k:]], glob=dec(f[k - 1]))
+                if il == "panic":
+                    ctx.violation({"kind": "glob_panics"}, "building a pattern from glob %r panics" % case.glob, replay_payload(case, il, ml), True)
                 for path, d in oracle(case, il):
                     ctx.violation({"kind": "ancestor_pruned"}, "glob %r fully matches %r but directory %r is rejected by the partial match"
                                   % (case.glob, path, d), replay_payload(case, il, ml, {"path": path, "dir": d}), True)
+                if toks and "".join(toks) == case.glob and il.startswith("ok "):
+                    ref = _ref_job((case.mode, toks, bool(case.ci), case.paths))
+                    got = "".join(r[0] for r in il.split(" ")[2:])
+                    for path, g, r in zip(case.paths, got, ref or ""):
+                        if r != "-" and g != r:
+                            ctx.violation({"kind": "glob_semantics"}, "glob %r %s %r, contrary to the documented semantics"
+                                          % (case.glob, "matches" if g == "1" else "does not match", path),
+                                          replay_payload(case, il, ml, {"path": path}), True)
             if il != ml and not ml.startswith("unsup"):
                 ctx.violation({"kind": "model_mismatch"}, "model and implementation disagree on %s: impl=%s model=%s" % (l[:80], il[:80], ml[:80]),
                               {"case_line": l, "impl": il, "model": ml}, found_input=False)
+            core.log("replayed: %s\n  impl : %s\n  model: %s" % (l[:200], il[:200], ml[:200]))
         return
 
     # --- 1. the pattern cases ------------------------------------------------------------------
@@ -300,6 +458,7 @@ def run(ctx):
     impl, mod = run_both(lines, model)
     mismatches = []
     oracle_fails = []
+    panics = []
     unsup = 0
     for case, il, ml in zip(cases, impl, mod):
         fi = il.split(" ")
@@ -308,6 +467,8 @@ def run(ctx):
         if fi[0] != "ok":
             ctx.count()
             ctx.distinct((case.mode, case.ci, case.glob), True)
+            if fi[0] == "panic":
+                panics.append((len(case.glob), case.mode, case.ci, case, il, ml))
         else:
             nmatch = 0
             for path, res in zip(case.paths, fi[2:]):
@@ -320,9 +481,11 @@ def run(ctx):
                 if b:
                     ctx.bump("ancestors_all_admitted", int("0" not in b))
             ctx.count(len(case.paths))
-            if nmatch and len(ctx.samples) < 6 and len(case.toks) >= 3:
-                ctx.sample({"mode": case.mode, "ci": case.ci, "glob": case.glob, "regex": dec(fi[1]) if fi[1] != "-" else None,
-                            "paths": case.paths[:6], "impl": fi[2:8]})
+            if nmatch and len(ctx.samples) < 6 and len(case.toks) >= 3 and (len(ctx.samples) % 2 == 0) == (case.mode == "D"):
+                shown = sorted(range(len(case.paths)), key=lambda i: (fi[2 + i][0] != "1", i))[:4]
+                ctx.sample({"mode": case.mode, "ignore_case": bool(case.ci), "glob": case.glob,
+                            "regex": dec(fi[1]) if fi[1] != "-" else "(selector mode, base %s)" % BASE,
+                            "paths": [case.paths[i] for i in shown], "impl=model": [fi[2 + i] for i in shown]})
         for t in case.toks:
             ctx.bump("token", t)
         for path, d in oracle(case, il):
@@ -333,6 +496,39 @@ def run(ctx):
         if il != ml:
             mismatches.append((case, il, ml))
     ctx.extra["cases_outside_class_fragment_oracle_only"] = unsup
+
+    # --- 1b. independent reference matcher on the Pattern-level cases over the fixed token set ------
+    from multiprocessing import Pool
+    dcases = [(c, il) for c, il in zip(cases, impl) if c.toks and il.startswith("ok ") and all(t in TOKENS for t in c.toks)]
+    with Pool(core.NCPU) as pool:
+        refs = pool.map(_ref_job, [(c.mode, c.toks, bool(c.ci), c.paths) for c, _ in dcases], chunksize=64)
+    sem_fails, nref = [], 0
+    for (c, il), ref in zip(dcases, refs):
+        if ref is None:
+            continue
+        got = "".join(r[0] for r in il.split(" ")[2:])
+        nref += len(ref) - ref.count("-")
+        if got != ref:
+            for path, g, r in zip(c.paths, got, ref):
+                if g != r and r != "-":
+                    sem_fails.append((len(c.glob), len(path), c.mode, c.ci, c, path, g))
+    ctx.extra["pairs_checked_against_python_reference_matcher"] = nref
+    ctx.bump("sweep", "python_reference_matcher_pairs", nref)
+    if sem_fails:
+        _, _, _, _, c, path, g = min(sem_fails, key=lambda t: t[:4])
+        one = Case(c.mode, c.ci, c.toks, [path], c.glob)
+        ctx.violation_counts["glob_semantics"] = len(sem_fails)
+        ctx.violation({"kind": "glob_semantics"},
+                      "glob %r%s%s %s %r, contrary to the documented semantics (independent reference matcher; %d such pairs)"
+                      % (c.glob, " with -i" if c.ci else "", " as the include path of PathSelector(%s)" % BASE if c.mode == "S" else "",
+                         "matches" if g == "1" else "does not match", path, len(sem_fails)),
+                      replay_payload(one, "", "", {"path": path, "impl_matches": g == "1"}), found_input=True)
+    if panics:
+        _, _, _, case, il, ml = min(panics, key=lambda t: t[:3])
+        ctx.violation_counts["glob_panics"] = len(panics)
+        ctx.violation({"kind": "glob_panics"}, "building a pattern from glob %r%s panics instead of matching or returning an error (%d such cases)"
+                      % (case.glob, " through PathSelector" if case.mode == "S" else "", len(panics)),
+                      replay_payload(Case(case.mode, case.ci, case.toks, case.paths[:1], case.glob), il, ml), found_input=True)
     if oracle_fails:
         # report the smallest failing (glob, path): shortest glob, then shortest path, Pattern level before selector level
         _, _, _, _, case, il, ml, path, d = min(oracle_fails, key=lambda t: t[:4])
@@ -375,7 +571,7 @@ def run(ctx):
                 for ci in (0, 1):
                     nb.append(Case("D", ci, list(sub), pa + ["/" + p for p in pa[:80]]))
                     nb.append(Case("S", ci, list(sub), pa[:200] + [BASE + "/" + p for p in pa[:80]]))
-            nimpl = core.run_lines_parallel(GLOB, [c.line for c in nb])
+            nimpl = _balanced(GLOB, [c.line for c in nb])
             for c, l in zip(nb, nimpl):
                 o = oracle(c, l)
                 if o:
